@@ -189,6 +189,43 @@ pub proof fn lemma_member_is_key(h: &Heap, x: Ptr, m: Map<Link, usize>, order: S
     assert(touched(h, order, v));
 }
 
+/// a traced object that is not a key of the trace map is the start object: the last edge of any longer path
+/// to it would make it a key
+pub proof fn lemma_nonkey_traced_is_root(h: &Heap, x: Ptr, m: Map<Link, usize>, order: Seq<Ptr>, p: Ptr)
+    requires
+        h.has(x), heap_closed(h), symmetric(h), trace_result(h, x, m, order),
+        order.contains(p), !m.contains_key(fl(p)),
+    ensures p == x,
+{
+    let sp = choose|sp: Seq<Ptr>| is_path(h, sp) && sp[0] == x && sp.last() == p;
+    if sp.len() >= 2 {
+        let i = sp.len() - 2;
+        assert(edge(h, sp[i], sp[i + 1]));
+        let pre = sp.take(i + 1);
+        assert(is_path(h, pre)) by {
+            assert forall|a: int| 0 <= a < pre.len() - 1 implies edge(h, #[trigger] pre[a], pre[a + 1]) by {
+                assert(pre[a] == sp[a] && pre[a + 1] == sp[a + 1]);
+                assert(edge(h, sp[a], sp[a + 1]));
+            }
+        }
+        assert(pre[0] == x && pre.last() == sp[i]);
+        assert(reach(h, x, sp[i]));
+        assert(order.contains(sp[i]));
+        lemma_member_is_key(h, x, m, order, sp[i], p);
+    }
+}
+
+/// an object that records no adoption reaches only itself
+pub proof fn lemma_no_forward_only_self(h: &Heap, x: Ptr, q: Ptr)
+    requires reach(h, x, q), forall|u: Ptr| !h.table(x).contains_key(fl(u)),
+    ensures q == x,
+{
+    let sq = choose|sq: Seq<Ptr>| is_path(h, sq) && sq[0] == x && sq.last() == q;
+    if sq.len() >= 2 {
+        assert(edge(h, sq[0int], sq[0int + 1]));
+    }
+}
+
 /// L.c01: no object that the orphan test hands to group teardown is reachable from a handle the
 /// program holds, through any chain of stored handles (recorded or not).
 pub proof fn lemma_orphan_unreachable(h: &Heap, l: Ledger, x: Ptr, m: Map<Link, usize>, order: Seq<Ptr>, s: Seq<Ptr>, k: int)
@@ -216,33 +253,9 @@ pub proof fn lemma_orphan_unreachable(h: &Heap, l: Ledger, x: Ptr, m: Map<Link, 
                 if h.table(p).contains_key(fl(u)) { lemma_member_is_key(h, x, m, order, p, u); }
             }
             // ... so p == x is the only traced object (nothing is reachable from it but itself)
+            lemma_nonkey_traced_is_root(h, x, m, order, p);
             assert forall|q: Ptr| order.contains(q) implies q == p by {
-                if order.contains(p) {
-                    // p is reachable from x; if p != x the path's last edge would make p a key
-                    let sp = choose|sp: Seq<Ptr>| is_path(h, sp) && sp[0] == x && sp.last() == p;
-                    if sp.len() >= 2 {
-                        let i = sp.len() - 2;
-                        assert(edge(h, sp[i], sp[i + 1]));
-                        // sp[i] is reachable, hence traced
-                        let pre = sp.take(i + 1);
-                        assert(is_path(h, pre)) by {
-                            assert forall|a: int| 0 <= a < pre.len() - 1 implies edge(h, #[trigger] pre[a], pre[a + 1]) by {
-                                assert(pre[a] == sp[a] && pre[a + 1] == sp[a + 1]);
-                                assert(edge(h, sp[a], sp[a + 1]));
-                            }
-                        }
-                        assert(pre[0] == x && pre.last() == sp[i]);
-                        assert(reach(h, x, sp[i]));
-                        assert(order.contains(sp[i]));
-                        lemma_member_is_key(h, x, m, order, sp[i], p);
-                    }
-                    assert(p == x);
-                    // everything reachable from x == p is p itself because p has no forward entries
-                    let sq = choose|sq: Seq<Ptr>| is_path(h, sq) && sq[0] == x && sq.last() == q;
-                    if sq.len() >= 2 {
-                        assert(edge(h, sq[0int], sq[0int + 1]));
-                    }
-                }
+                lemma_no_forward_only_self(h, x, q);
             }
             // hence the group-owned count of t is what p alone records, which is nothing, so strong(t) == 0,
             // contradicting the handle p holds to t
